@@ -1093,6 +1093,16 @@ pub fn tpl_index(re: &str) -> Option<usize> { TEMPLATES.iter().position(|t| t.re
 pub fn check_def_faithful(run: &mut Run, g: &GDef, td: &TableDefinition, text: &str) {
     run.oracle_checks += 1;
     let desc = format!("definition: {}", text.replace('\n', " "));
+    // the named patterns: every one that was written, in the written order, with its text and mode (inline patterns of
+    // `'regex' => column` items are bound to generated names and are counted only)
+    let named: Vec<String> = td.patterns.iter().filter(|(n, _, _)| !n.starts_with("_pattern"))
+        .map(|(n, re, mode)| format!("{} = {}{:?}", n, if matches!(mode, sqlgrep::data_model::RegexMode::Split) { "split " } else { "" }, re.as_str())).collect();
+    let written_pats: Vec<String> = g.pats.iter().map(|p| format!("{} = {}{:?}", p.name, if TEMPLATES[p.tpl].split { "split " } else { "" }, TEMPLATES[p.tpl].re)).collect();
+    let inline_written = g.cols.iter().filter(|c| matches!(c.parsing, GParsing::Inline(_, _))).count();
+    if named != written_pats || td.patterns.len() != written_pats.len() + inline_written {
+        run.fail(desc, "definition-patterns-not-as-written", format!("patterns written: {:?} (+{} inline); patterns of the parsed definition: {:?}", written_pats, inline_written, td.patterns.iter().map(|(n, re, _)| format!("{} = {:?}", n, re.as_str())).collect::<Vec<_>>()));
+        return;
+    }
     if td.columns.len() != g.cols.len() {
         run.fail(desc, "definition-column-count", format!("{} columns written, {} in the parsed definition", g.cols.len(), td.columns.len()));
         return;
